@@ -93,7 +93,7 @@ def graphs():
     mid = ("ds", "mid", {"params": [inner, ("opt", "B", ("val", 0))], "callback": ("fn", "cb")})
     mid2 = ("ds", "mid2", {"params": [inner]})
     top = ("ds", "top", {"params": [mid, mid2]})
-    ov = ("ds", "ov", {"params": [("opt", "A")], "dispatch": inner, "overloads": [(("inner", 1), ("opt", "B", ("val", 0)))]})
+    ov = ("ds", "ov", {"params": [("opt", "A")], "dispatch": inner, "overloads": [(("inner", 1), ("opt", "B", ("val", 0))), ("zz", ("val", "never")), (7, ("val", "never")), (None, ("val", "never"))]})
     guarded = ("ds", "guarded", {"params": [("optdom", "A", None, ("vals", [1]))]})
     co = ("coalesce", [guarded, ("val", "fallback")])
     return [("single", inner), ("chain", mid), ("diamond", top), ("overload-on-dataset", ov), ("cached-combinator", ("cached", ("apply", inner, ("fn", "f")), "c")),
